@@ -45,6 +45,7 @@ class PyFunc:
         self.attrs = {}
         self.cls = cls
         self.is_static = False
+        self.is_generator = None
 
     def __repr__(self):
         return '<fn %s.%s>' % (self.module.name, self.qualname)
@@ -88,6 +89,14 @@ class PyClass:
         return '<class %s.%s>' % (self.module.name, self.name)
 
 
+class _EnvFrame:
+    """minimal frame for evaluating an expression in a dict environment"""
+
+    def __init__(self, module, env):
+        self.module, self.locals, self.closure, self.globals_decl, self.func = module, env, [], set(), None
+        self.classname = None
+
+
 class PyInstance:
     def __init__(self, cls):
         self.cls = cls
@@ -113,6 +122,19 @@ class StaticMethod:
         self.func = func
 
 
+class ClassMethod:
+    def __init__(self, func):
+        self.func = func
+
+
+class Property:
+    def __init__(self, fget, fset=None):
+        self.fget, self.fset = fget, fset
+
+    def setter(self, f):
+        return Property(self.fget, f)
+
+
 class SuperProxy:
     def __init__(self, cls, inst):
         self.cls, self.inst = cls, inst
@@ -136,7 +158,8 @@ UNBOUND = _Unbound()
 
 
 class Frame:
-    __slots__ = ('func', 'locals', 'module', 'closure', 'line', 'callsite', 'globals_decl', 'classname')
+    __slots__ = ('func', 'locals', 'module', 'closure', 'line', 'callsite', 'globals_decl', 'classname',
+                 'nonlocal_decl', 'yielded')
 
     def __init__(self, func, module, closure, callsite):
         self.func, self.module, self.closure = func, module, closure
@@ -145,6 +168,8 @@ class Frame:
         self.callsite = callsite
         self.globals_decl = set()
         self.classname = None
+        self.nonlocal_decl = set()
+        self.yielded = None
 
 
 _BINOPS = {
@@ -326,6 +351,12 @@ class Interp:
             d = self.eval(dec, fr)
             if d is self.libs.builtins.get('staticmethod'):
                 fn = StaticMethod(fn)
+            elif d is self.libs.builtins.get('classmethod'):
+                fn = ClassMethod(fn)
+            elif d is self.libs.builtins.get('property'):
+                fn = Property(fn)
+            elif isinstance(d, BoundMethod) and False:
+                pass
             else:
                 fn = self.call(d, [fn], {})
         self.store_name(st.name, fn, fr)
@@ -347,8 +378,63 @@ class Interp:
             qual = fr.classname + '.' + st.name
         return PyFunc(st, fr.module, closure, qual, defaults, kwdefaults)
 
+    def synth_function(self, node, cls, env):
+        """a function synthesised by the analyser (dataclass __init__): `env` holds its free names"""
+        f = PyFunc(node, cls.module, [env], cls.name + '.' + node.name,
+                   [self.eval(d, _EnvFrame(cls.module, env)) for d in node.args.defaults], {})
+        f.cls = cls
+        return f
+
+    def host_class(self, st, fr, bases):
+        """class statement whose base is a real standard-library class (enum.Enum family, typing.NamedTuple):
+        only data-only bodies are supported; the class is built by the real base's functional API"""
+        import enum
+        import typing
+        import collections
+        members, annotated = [], []
+        cfr = Frame(None, fr.module, fr.closure, None)
+        cfr.locals = {}
+        cfr.classname = st.name
+        for b in st.body:
+            if isinstance(b, ast.Expr) and isinstance(b.value, ast.Constant):
+                continue
+            if isinstance(b, ast.Pass):
+                continue
+            if isinstance(b, ast.Assign) and len(b.targets) == 1 and isinstance(b.targets[0], ast.Name):
+                self.stack.append(cfr)
+                try:
+                    v = self.eval(b.value, cfr)
+                finally:
+                    self.stack.pop()
+                cfr.locals[b.targets[0].id] = v
+                members.append((b.targets[0].id, v))
+                continue
+            if isinstance(b, ast.AnnAssign) and isinstance(b.target, ast.Name):
+                annotated.append(b.target.id)
+                if b.value is not None:
+                    self.stack.append(cfr)
+                    try:
+                        cfr.locals[b.target.id] = self.eval(b.value, cfr)
+                    finally:
+                        self.stack.pop()
+                continue
+            raise AnalysisError('unknown-construct', 'class %s derives from a library class and has a non-data body '
+                                '(%s) at %s' % (st.name, type(b).__name__, self.loc()))
+        base = bases[0]
+        if len(bases) == 1 and isinstance(base, type) and issubclass(base, enum.Enum):
+            return base(st.name, members)
+        if len(bases) == 1 and base is typing.NamedTuple:
+            return collections.namedtuple(st.name, annotated,
+                                          defaults=[cfr.locals[n] for n in annotated if n in cfr.locals] or None)
+        raise AnalysisError('unknown-construct', 'class %s derives from library class %r at %s'
+                            % (st.name, base, self.loc()))
+
     def st_ClassDef(self, st, fr):
         bases = [self.eval(b, fr) for b in st.bases]
+        if any(isinstance(b, type) or b is __import__('typing').NamedTuple for b in bases):
+            cls = self.host_class(st, fr, bases)
+            self.store_name(st.name, cls, fr)
+            return
         ns = {}
         cfr = Frame(fr.func, fr.module, fr.closure, None)
         cfr.locals = ns
@@ -363,9 +449,17 @@ class Interp:
         finally:
             self.stack.pop()
         for k, v in ns.items():
-            f = v.func if isinstance(v, StaticMethod) else v
+            f = v.func if isinstance(v, (StaticMethod, ClassMethod)) else v
+            if isinstance(f, Property):
+                for g in (f.fget, f.fset):
+                    if isinstance(g, PyFunc):
+                        g.cls = cls
+                continue
             if isinstance(f, PyFunc):
                 f.cls = cls
+        cls.annotated = [b.target.id for b in st.body if isinstance(b, ast.AnnAssign) and isinstance(b.target, ast.Name)]
+        for dec in reversed(st.decorator_list):
+            cls = self.call(self.eval(dec, fr), [cls], {})
         self.store_name(st.name, cls, fr)
 
     def st_Return(self, st, fr):
@@ -439,6 +533,8 @@ class Interp:
                 break
             except _Continue:
                 continue
+        else:
+            self.exec_block(st.orelse, fr)
 
     def st_Break(self, st, fr):
         raise _Break()
@@ -479,7 +575,51 @@ class Interp:
         fr.globals_decl.update(st.names)
 
     def st_Nonlocal(self, st, fr):
-        raise AnalysisError('unknown-construct', 'nonlocal at %s' % self.loc())
+        fr.nonlocal_decl.update(st.names)
+
+    def st_Match(self, st, fr):
+        subject = self.eval(st.subject, fr)
+        for case in st.cases:
+            binds = {}
+            if self.match_pattern(case.pattern, subject, binds):
+                for k, v in binds.items():
+                    self.store_name(k, v, fr)
+                if case.guard is None or self.truth(self.eval(case.guard, fr)):
+                    self.exec_block(case.body, fr)
+                    return
+
+    def match_pattern(self, pat, v, binds):
+        if isinstance(pat, ast.MatchValue):
+            return self.truth(self.binop(operator.eq, v, self.eval(pat.value, self.stack[-1])))
+        if isinstance(pat, ast.MatchSingleton):
+            return v is pat.value
+        if isinstance(pat, ast.MatchAs):
+            if pat.pattern is not None and not self.match_pattern(pat.pattern, v, binds):
+                return False
+            if pat.name is not None:
+                binds[pat.name] = v
+            return True
+        if isinstance(pat, ast.MatchOr):
+            return any(self.match_pattern(q, v, binds) for q in pat.patterns)
+        if isinstance(pat, ast.MatchSequence):
+            if not isinstance(v, (list, tuple)):
+                return False
+            stars = [i for i, q in enumerate(pat.patterns) if isinstance(q, ast.MatchStar)]
+            if not stars:
+                return len(v) == len(pat.patterns) and all(self.match_pattern(q, x, binds)
+                                                           for q, x in zip(pat.patterns, v))
+            i = stars[0]
+            after = len(pat.patterns) - i - 1
+            if len(v) < len(pat.patterns) - 1:
+                return False
+            if not all(self.match_pattern(q, x, binds) for q, x in zip(pat.patterns[:i], v[:i])):
+                return False
+            if after and not all(self.match_pattern(q, x, binds) for q, x in zip(pat.patterns[i + 1:], v[len(v) - after:])):
+                return False
+            if pat.patterns[i].name is not None:
+                binds[pat.patterns[i].name] = list(v[i:len(v) - after])
+            return True
+        raise AnalysisError('unknown-construct', 'match pattern %s at %s' % (type(pat).__name__, self.loc()))
 
     def st_With(self, st, fr):
         for item in st.items:
@@ -554,6 +694,12 @@ class Interp:
             raise AnalysisError('unknown-construct', 'assignment target %s at %s' % (type(target).__name__, self.loc()))
 
     def store_name(self, name, val, fr):
+        if name in fr.nonlocal_decl:
+            for env in fr.closure:
+                if name in env:
+                    env[name] = val
+                    return
+            raise AnalysisError('unknown-construct', 'nonlocal %s has no binding at %s' % (name, self.loc()))
         if name in fr.globals_decl:
             self.event('global-write', target=fr.module.name + '.' + name)
             fr.module.ns[name] = val
@@ -604,6 +750,8 @@ class Interp:
                 raise PyExc('AttributeError', "class %s has no attribute '%s'" % (obj.name, name), loc=self.loc())
             if isinstance(v, StaticMethod):
                 return v.func
+            if isinstance(v, ClassMethod):
+                return BoundMethod(v.func, obj)
             if isinstance(v, ExtClassMethod):
                 return v.bind_class(obj)
             return v
@@ -627,11 +775,17 @@ class Interp:
             raise PyExc('AttributeError', 'super has no attribute %s' % name, loc=self.loc())
         if obj is None:
             raise PyExc('AttributeError', "'NoneType' object has no attribute '%s'" % name, loc=self.loc())
+        if isinstance(obj, Property) and name == 'setter':
+            return obj.setter
         return self.libs.getattr(obj, name)
 
     def bind(self, v, inst):
         if isinstance(v, StaticMethod):
             return v.func
+        if isinstance(v, ClassMethod):
+            return BoundMethod(v.func, inst.cls)
+        if isinstance(v, Property):
+            return self.call(v.fget, [inst], {})
         if isinstance(v, PyFunc):
             return BoundMethod(v, inst)
         if isinstance(v, ExtMethod):
@@ -640,6 +794,14 @@ class Interp:
 
     def setattr(self, obj, name, val):
         if isinstance(obj, PyInstance):
+            d = obj.cls.lookup(name)
+            if isinstance(d, Property):
+                if d.fset is None:
+                    raise PyExc('AttributeError', "can't set attribute '%s'" % name, loc=self.loc())
+                self.call(d.fset, [obj, val], {})
+                return
+            if getattr(obj.cls, 'frozen_dataclass', False) and obj.frozen is not None and getattr(obj, 'dc_sealed', False):
+                raise PyExc('FrozenInstanceError', "cannot assign to field '%s'" % name, loc=self.loc())
             self.libs.instance_setattr(obj, name, val)
             return
         if isinstance(obj, PyFunc):
@@ -720,8 +882,43 @@ class Interp:
             if isinstance(v, ast.Constant):
                 parts.append(str(v.value))
             else:
-                parts.append(str(self.eval(v.value, fr)))
+                parts.append(self.format_value(v, fr))
         return ''.join(parts)
+
+    def format_value(self, v, fr):
+        val = self.eval(v.value, fr)
+        if v.conversion == ord('r'):
+            val = self.call(self.libs.builtins['repr'], [val], {})
+        elif v.conversion == ord('s'):
+            val = self.call(self.libs.builtins['str'], [val], {})
+        elif v.conversion == ord('a'):
+            val = ascii(val)
+        spec = ''
+        if v.format_spec is not None:
+            spec = self.ex_JoinedStr(v.format_spec, fr)
+        if spec:
+            try:
+                return format(val, spec)
+            except (TypeError, ValueError) as e:
+                raise PyExc(type(e).__name__, str(e), loc=self.loc())
+        return self.call(self.libs.builtins['str'], [val], {}) if not isinstance(val, str) else val
+
+    def ex_NamedExpr(self, e, fr):
+        v = self.eval(e.value, fr)
+        self.assign(e.target, v, fr)
+        return v
+
+    def ex_Yield(self, e, fr):
+        if fr.yielded is None:
+            raise AnalysisError('unknown-construct', 'yield outside a generator function at %s' % self.loc())
+        fr.yielded.append(self.eval(e.value, fr) if e.value is not None else None)
+        return None
+
+    def ex_YieldFrom(self, e, fr):
+        if fr.yielded is None:
+            raise AnalysisError('unknown-construct', 'yield from outside a generator function at %s' % self.loc())
+        fr.yielded.extend(self.iterate(self.eval(e.value, fr)))
+        return None
 
     def ex_BinOp(self, e, fr):
         op = _BINOPS.get(type(e.op))
@@ -964,6 +1161,12 @@ class Interp:
             self.trace_calls.append((key, callsite))
         if len(self.stack) > 60:
             raise AnalysisError('recursion', 'call depth > 60 at %s' % callsite)
+        if f.is_generator is None:
+            f.is_generator = _has_yield(node)
+        if f.is_generator:
+            # generator functions are run eagerly: the values are collected and handed out as an iterator (the
+            # analysed code base has no infinite or side-effecting generators; send()/throw() are not modelled)
+            fr.yielded = []
         self.stack.append(fr)
         try:
             self.libs.on_enter(f, fr)
@@ -973,7 +1176,22 @@ class Interp:
             ret = r.value
         finally:
             self.stack.pop()
+        if f.is_generator:
+            return iter(fr.yielded)
         return ret
+
+
+def _has_yield(node):
+    """does the function body (not nested functions / lambdas) contain a yield?"""
+    todo = list(node.body)
+    while todo:
+        n = todo.pop()
+        if isinstance(n, (ast.Yield, ast.YieldFrom)):
+            return True
+        if isinstance(n, (ast.FunctionDef, ast.AsyncFunctionDef, ast.Lambda, ast.ClassDef)):
+            continue
+        todo.extend(ast.iter_child_nodes(n))
+    return False
 
 
 class _Break(_Flow):
@@ -1000,6 +1218,12 @@ class ExcValue:
 
     def message(self):
         return ' '.join(str(a) for a in self.args)
+
+    def __str__(self):
+        return str(self.args[0]) if len(self.args) == 1 else (str(tuple(self.args)) if self.args else '')
+
+    def __repr__(self):
+        return '%s(%s)' % (self.name, ', '.join(repr(a) for a in self.args))
 
 
 class ExtMethod:
